@@ -26,7 +26,7 @@ fn registry() -> Vec<Property> {
         with_sub(props_hist::c01::property(), bigworld::sub()),
         with_sub(props_hist::c02::property(), bigworld::sub()),
         props_hist::c03::property(),
-        props_hist::c05::property(),
+        with_sub(props_hist::c05::property(), bigworld::sub()),
         props_hist::c09::property(),
         props_conc::c17_subs().into_iter().fold(with_sub(props_hist::c17::property(), bigworld::sub()), with_sub),
         props_seq::c04(),
